@@ -113,7 +113,7 @@ NOT_BUILT_REASON = "check not built yet in this round (work in progress; see DES
 # extensions made after the table above was written (second seeding round and self-review)
 ADDED = {
     "C01": "part 2 explores, under the same supply oracle, the deposit / withdrawal alphabets of C10 (stake, plasma, sentinel, pillar QSR and collateral, HTLC, liquidity stake, bridge wrap / unwrap) and the reward alphabet of C11 (epoch updates after missed slots and a 23-epoch outage, collects) from their base states at depth 2 (quick) / 3 (thorough); operation Tneg hands the node a transfer whose in-memory amount is negative through the raw publication path.",
-    "C02": "a fifth scripted history deletes and re-creates a ledger key (fusion cancelled, re-fused) and then sends a block acknowledging the momentum before: historical views below the deletion are compared at every later frontier.",
+    "C02": "a fifth scripted history deletes and re-creates a ledger key (fusion cancelled, re-fused) and then sends a block acknowledging the momentum before: historical views below the deletion are compared at every later frontier. A sixth one has a block that exists three momentums before the producer pools it (operations Thold / Rel) while the plasma fused for its account changes: followers may be handed it at any frontier from the momentum it acknowledges on.",
     "C03": "the world contains a data-only send (zero token standard, amount 0) that was received once; 'already-received-zero-amount-send' is a FromBlockHash domain value.",
     "C04": "the alphabet and the first base state use a data-only transfer (zero token standard, amount 0).",
     "C06": "two 'tick-gap' scenarios: the abandoned branch misses the rest of the fork point's election tick (at an epoch end and in mid-epoch) and continues in the next tick, the adopted branch fills the skipped slots.",
